@@ -379,6 +379,9 @@ class CellConversion:
             return p_tree
 
         assert isSurface(p_tree)
+        if abs(p_tree.surface) not in matching:
+            raise CellConversionError(f'surface {abs(p_tree.surface)} is not '
+                                      'defined')
         t4_ids = matching[abs(p_tree.surface)]
 
         if p_tree.sub is not None:
@@ -407,6 +410,9 @@ class CellConversion:
         if not isinstance(tree, (list, tuple)):
             return tree
         if tree[0] == '^':
+            if int(tree[1]) not in self.dic_cell_mcnp:
+                raise CellConversionError(f'cell {int(tree[1])}, referred to '
+                                          'by a complement, is not defined')
             cell = self.dic_cell_mcnp[int(tree[1])]
             if cell.lattice is not None:
                 # This is a complement of a lattice! What does that even mean
